@@ -47,6 +47,15 @@ func pickXzCfg(rng *rand.Rand, i int) xzCfg {
 	}
 	c := xzCfg{LC: t[0], LP: t[1], PB: t[2]}
 	c.DictCap = []int{4096, 4097, 6144, 65536, 1 << 20, 4096, 65536}[rng.Intn(7)]
+	if rng.Intn(4) == 0 {
+		// one below / at / one above a representable dictionary size (2^k and 3*2^(k-1)), up to 1.5 MiB
+		k := 12 + rng.Intn(9)
+		base := []int{1 << uint(k), 3 << uint(k-1)}[rng.Intn(2)]
+		c.DictCap = base + rng.Intn(3) - 1
+		if c.DictCap < 4096 {
+			c.DictCap = 4096
+		}
+	}
 	c.BufSize = []int{273, 274, 4096, 4096, 1000}[rng.Intn(5)]
 	c.BlockSize = []int64{0, 0, 0, 1, 2, 273, 1000, 4096, 65536, 100000}[rng.Intn(10)]
 	switch rng.Intn(6) {
